@@ -66,6 +66,49 @@ def check_scenario(sc):
                 out['viol'].append(('descriptor-before-data/%s' % fmt, 'dump_to_path(%s%s) of shape %r, kill %s: %s' %
                                     (fmt, ', add_filehash_to_path' if filehash else '', shape, label, what),
                                     dict(sc, label=label)))
+        # interruptions that unwind through Python: OSError at the k-th fs operation, the source raising at row j
+        import gc
+        nops = len(rec.ops)
+
+        def after_failure(label, make_flow, fail_at=None):
+            r2 = os.path.join(d, 'f')
+            import shutil
+            shutil.rmtree(r2, ignore_errors=True)
+            frec = fsrec.Recorder(r2, fail_at=fail_at)
+            try:
+                with frec.active():
+                    make_flow(r2).process()
+                failed = False
+            except core.CaseTimeout:
+                raise
+            except Exception:
+                failed = True
+            gc.collect()
+            gc.collect()
+            state = fsrec._snapshot(r2)
+            what, outcome = check_state(state)
+            out['n'] += 1
+            out['outcomes']['exc:' + outcome] = out['outcomes'].get('exc:' + outcome, 0) + 1
+            out['keys'].append(h([sc, label]))
+            if what and 'e' not in seen:
+                seen.add('e')
+                out['viol'].append(('descriptor-after-failure/%s' % fmt, 'dump_to_path(%s) of shape %r, %s: %s' % (fmt, shape, label, what),
+                                    dict(sc, label=label)))
+        for k in range(nops):
+            after_failure('OSError at fs op #%d' % k, lambda root2: core.Flow(
+                core.from_state(scenario_state(shape, nested)), core.dataflows.dump_to_path(root2, format=fmt, add_filehash_to_path=filehash)), fail_at=k)
+        total = sum(shape)
+        for j in range(total):
+            def mk(root2, j=j):
+                cnt = [0]
+
+                def boom(i, jj):
+                    cnt[0] += 1
+                    if cnt[0] == j + 1:
+                        raise RuntimeError('source fails at row %d' % j)
+                return core.Flow(core.from_state(scenario_state(shape, nested), on_pull=boom),
+                                 core.dataflows.dump_to_path(root2, format=fmt, add_filehash_to_path=filehash))
+            after_failure('source raising at row %d of %d' % (j, total), mk)
         final_what, final_outcome = check_state(rec.points[-1][1])
         if final_outcome != 'descriptor-complete' and not seen:
             # the completed dump itself must satisfy the marker reading (else the oracle would be vacuous)
